@@ -183,7 +183,7 @@ func storeRoot(addr ssa.Value) ssa.Value {
 }
 
 func runC13(c *core.Ctx) {
-	c.Explanation = "Ownership rules of the simulator's mutable value structs, decided on SSA: (pure.expr) in the expression evaluator (interpreter Process*Expression / processExpression and everything they call statically inside interpreter, plus all of package operator) no store goes through a pointer derived from an operand — a value.Value parameter, the result of evaluating a sub-expression, or a map element — rather than from a value allocated by the same activation or returned by a callee summarised returns-fresh (least fixpoint); regex capture bookkeeping is the named exception of the property; (pure.rhs) in the assignment operators assign.*(left, right) no store derives from `right`; (pure.fresh) every value stored into a local-variable frame (LocalVariables map updates) is fresh on every path — a parameter that aliases the caller's variable is a by-reference argument; (pure.frame) ProcessSubroutine / ProcessFunctionSubroutine register the defer that restores localVars and RegexMatchedValues, and every return whose error may be nil is dominated by that registration. Necessary for: evaluating an expression changes no variable, arguments are passed by value, a call leaves the caller's frame intact."
+	c.Explanation = "Ownership rules of the simulator's mutable value structs, decided on SSA: (pure.expr) in the expression evaluator (interpreter Process*Expression / processExpression and everything they call statically inside interpreter, plus all of package operator) no store goes through a pointer derived from an operand — a value.Value parameter, the result of evaluating a sub-expression, or a map element — rather than from a value allocated by the same activation or returned by a callee summarised returns-fresh (least fixpoint); regex capture bookkeeping is the named exception of the property; (pure.rhs) in the assignment operators assign.*(left, right) no store derives from `right`; (pure.fresh) every value stored into a local-variable frame (LocalVariables map updates) is fresh on every path — a parameter that aliases the caller's variable is a by-reference argument; (pure.frame) ProcessSubroutine / ProcessFunctionSubroutine register the defer that restores localVars and RegexMatchedValues, and every return whose error may be nil is dominated by that registration. Necessary for: evaluating an expression changes no variable, arguments are passed by value, a call leaves the caller's frame intact. (pure.copy) every Copy method returns a new struct; (pure.reqbackend) ctx.Backend never aliases the backend table."
 	c.NotCovered = []string{"aliasing through slices shared inside values (net.IP, collections)", "header and object stores (C17)", "that Copy methods copy every field"}
 	prog := c.Prog
 	ifuncs := prog.ModuleFuncs("interpreter")
